@@ -141,6 +141,7 @@ class LineProbe:
         import inspect
         self.attached = False
         self.hits = 0
+        self.errors = 0
         self.callback = callback
         func = getattr(func, '__vf_orig__', func)
         self.code = func.__code__
@@ -181,5 +182,8 @@ class LineProbe:
             return sys.monitoring.DISABLE
         p.hits += 1
         fr = sys._getframe(1)
-        p.callback(fr.f_locals)
+        try:
+            p.callback(fr.f_locals)
+        except Exception:  # noqa - a probe must never disturb the program
+            p.errors += 1
         return None
